@@ -64,20 +64,20 @@ def read_formula(text, names):
 STATE_RE = re.compile(r'^ State (\d+):(.*)$')
 
 
-def run_telingo(program, horizon, timeout=120):
+def run_telingo(program, horizon, timeout=120, errlen=400, models=0):
     """all models of `program` with exactly `horizon` states (imin=imax=horizon).
     Returns ('ok', [ [set(atoms) per state] per model ]) or ('err', message)."""
     with tempfile.NamedTemporaryFile('w', suffix='.lp', delete=False) as f:
         f.write(program)
         path = f.name
     try:
-        p = subprocess.run(['/venv/bin/python', '-m', 'telingo', path, '0', f'--imin={horizon}', f'--imax={horizon}',
+        p = subprocess.run(['/venv/bin/python', '-m', 'telingo', path, str(models), f'--imin={horizon}', f'--imax={horizon}',
                             '--verbose=0', '--warn=none'], capture_output=True, text=True, timeout=timeout)
     finally:
         os.unlink(path)
     out = p.stdout
     if 'error' in p.stderr.lower() or 'Traceback' in p.stderr:
-        return ('err', p.stderr[-400:])
+        return ('err', p.stderr[-errlen:])
     models = []
     cur = None
     state = None
